@@ -26,8 +26,9 @@ K_HI = int(os.environ.get("VQ_KHI", "1000000"))
 NTOK = len(TEXT.split())
 # work allowed between two consecutive deadline checks: linear in the number of tokens (one
 # sequence analysis or one stack-element expansion), never in the number of candidate sequences
-W_RULE = 2 * NTOK + 2
-W_SCORE = 3 * NTOK + 2
+W_RULE = NTOK + 2
+W_SCORE = 2 * NTOK + 1
+PP = sys.modules["ctparse.partial_parse"]
 
 
 class CountingScorer(DummyScorer):
@@ -47,7 +48,8 @@ def run(k, use_ctparse=False):
     """one run of the real parser; the k-th clock read (0-based; read 0 is the start time) and all
     later ones return a time past the deadline.  k may be symbolic: it is only compared inside
     the stub clock."""
-    st = {"reads": 0, "late_at": None, "work": 0, "after": 0, "maxw": 0, "maxs": 0, "lastw": 0, "lasts": 0}
+    st = {"reads": 0, "late_at": None, "work": 0, "after": 0, "maxw": 0, "maxs": 0, "lastw": 0, "lasts": 0,
+          "checks": 0, "units": set(), "maxunits": 0}
     sc = CountingScorer()
     orig = dict(REG)
 
@@ -74,6 +76,36 @@ def run(k, use_ctparse=False):
         return 0.0
     for name, (w, p) in orig.items():
         REG[name] = (mk(w), p)
+    # deadline checks proper (calls of the closure made by timers.timeout) and the units of work
+    # between two of them: analysed candidate sequences / expanded partial parses, by identity
+    old_timeout, old_apply, old_from = C.timeout_, PP.PartialParse.apply_rule, PP.PartialParse.from_regex_matches
+
+    def timeout_wrap(t):
+        inner = old_timeout(t)
+
+        def checked():
+            st["checks"] += 1
+            st["maxunits"] = max(st["maxunits"], len(st["units"]))
+            st["units"] = set()
+            return inner()
+        return checked
+
+    def apply_wrap(self, *a, **k):
+        st["units"].add(("pp", id(self)))
+        return old_apply(self, *a, **k)
+
+    def from_wrap(regex_matches):
+        st["units"].add(("seq", id(regex_matches)))
+        return old_from.__func__(PP.PartialParse, regex_matches)
+    C.timeout_ = timeout_wrap
+    PP.PartialParse.apply_rule = apply_wrap
+    PP.PartialParse.from_regex_matches = staticmethod(from_wrap)
+    _sf = sc.score_final
+
+    def sf_wrap(txt, ts, pp, prod):
+        st["units"].add(("pp", id(pp)))
+        return _sf(txt, ts, pp, prod)
+    sc.score_final = sf_wrap
     old = T.perf_counter
     T.perf_counter = fake
     exc = None
@@ -90,8 +122,12 @@ def run(k, use_ctparse=False):
             exc = "%s: %s" % (type(e).__name__, e)
     finally:
         T.perf_counter = old
+        C.timeout_ = old_timeout
+        PP.PartialParse.apply_rule = old_apply
+        PP.PartialParse.from_regex_matches = old_from
         for name in orig:
             REG[name] = orig[name]
+    st["maxunits"] = max(st["maxunits"], len(st["units"]))
     st["scored"] = sc.n
     return out, res, exc, st
 
@@ -114,6 +150,8 @@ def check(k):
         i, w0, s0 = st["late_at"]
         if st["work"] - w0 > W_RULE or st["scored"] - s0 > W_SCORE:
             return False, "work continued after the deadline: %d rule calls, %d scorings after read %d" % (st["work"] - w0, st["scored"] - s0, i)
+    if st["maxunits"] > 1:
+        return False, "between two deadline checks %d candidate sequences / partial parses were processed (at most one allowed)" % st["maxunits"]
     if st["maxw"] > W_RULE or st["maxs"] > W_SCORE:
         return False, "work between two deadline checks exceeds the linear bound: %d rule calls / %d scorings (allowed %d / %d)" % (st["maxw"], st["maxs"], W_RULE, W_SCORE)
     _, res, exc2, _ = run(k, use_ctparse=True)
